@@ -711,3 +711,19 @@ def _gen_integers(lib, run, recv, args, kw):
         _set_rs(run, recv, next_int(s, hi_t, size[1]))
         return SeqV('I', draw_int(s, hi_t, size[1]))
     raise Unsupported('integers arguments')
+
+# extensionality of real sequences, specialised to the places where a sequence is a distribution parameter
+rdiff = F('rdiff', RSeq, RSeq, Int)
+_q = z3.Const('q', RSeq)
+
+
+def _ext(name, mk):
+    axiom(name + '.ext', forall([_s, _r, _q, _n],
+                                z3.Or(mk(_s, _r, _n) == mk(_s, _q, _n), T.rlen(_r) != T.rlen(_q),
+                                      z3.And(0 <= rdiff(_r, _q), rdiff(_r, _q) < T.rlen(_r),
+                                             T.rat(_r, rdiff(_r, _q)) != T.rat(_q, rdiff(_r, _q)))),
+                                [(mk(_s, _r, _n), mk(_s, _q, _n))]), [name], 'definitional')
+
+
+_ext('draw_dirichlet', draw_dir)
+_ext('next_dirichlet', next_dir)
